@@ -33,9 +33,9 @@ union('Payload', ['PayloadSA', 'PayloadKE', 'PayloadID', 'PayloadAUTH', 'Payload
 
 # crypto.py --------------------------------------------------------------------------------------
 # hasher: 1 = sha1, 2 = sha256, 3 = sha512 (index into the three digest constructors the tables name)
-rec('Prf', pyclass='crypto.Prf', hasher=Int)
-rec('Integrity', pyclass='crypto.Integrity', hasher=Int, keybits=Int)
-rec('Cipher', pyclass='crypto.Cipher', _transform=Rec('Transform'), _algorithm=Int)
+rec('Prf', pyclass='crypto.Prf', hasher=Obj('hasher'))
+rec('Integrity', pyclass='crypto.Integrity', hasher=Obj('hasher'), keybits=Int)
+rec('Cipher', pyclass='crypto.Cipher', _transform=Rec('Transform'), _algorithm=Obj('cipheralg'))
 rec('Crypto', pyclass='crypto.Crypto', cipher=Rec('Cipher'), sk_e=Bytes, integrity=Rec('Integrity'), sk_a=Bytes,
     prf=Rec('Prf'), sk_p=Bytes)
 
